@@ -282,6 +282,16 @@ def _sh_version(wire):
     return v[1] if v[0] == 3 else -1
 
 
+def _sh_mark(wire):
+    """downgrade mark in the random of the first ServerHello delivered to the client: "01", "00" or "" """
+    if len(wire) < 45 or wire[0] != 22 or wire[5] != 2:
+        return ""
+    rnd = bytes(wire[11:43])
+    if rnd[24:31] == b"DOWNGRD":
+        return "%02d" % rnd[31] if rnd[31] in (0, 1) else "xx"
+    return ""
+
+
 def attack(job):
     fi, f, d, nplain, op, tag = job
     try:
@@ -299,7 +309,7 @@ def attack(job):
         from tlslite.constants import AlertDescription
         clocal = AlertDescription.toStr(co.exc.description) if isinstance(co.exc, TLSLocalAlert) else ""
         res = {"ev": "RES", "both": both, "c_out": co.describe(), "s_out": so.describe(), "applied": bool(applied),
-               "cSawVer": _sh_version(bytes(p.s2c.dlv_log)), "cLocal": clocal,
+               "cSawVer": _sh_version(bytes(p.s2c.dlv_log)), "cLocal": clocal, "shMark": _sh_mark(bytes(p.s2c.sent_log)), "sSentVer": _sh_version(bytes(p.s2c.sent_log)),
                "bodyTamper": bool(applied and op["kind"] in ("tamper", "rewrite") and tag.get("body", True)),
                "c": {}, "s": {}}
         if both:
